@@ -22,3 +22,82 @@ def jobs(tier):
                         must_have=['postcondition', 'loop_invariant_step', 'loop_decreases'],
                         clause='equality holds exactly when every code unit agrees'))
     return out
+
+
+# ---- String operator families: plumbing onto IsLess / IsGreater / IsEqual, whose contracts carry the lexicographic meaning -----------
+import lib_containers as LC
+
+ST = 'String__char'
+QST = 'Qentem::String<char>'
+CMP_M = '(self->length_ < string->length_ ? self->length_ : string->length_)'
+
+
+def st_wf(s):
+    return ['__CPROVER_is_fresh(%s, sizeof(*%s))' % (s, s), '%s->length_ <= 0x1000000u' % s,
+            '__CPROVER_is_fresh(%s->storage_, (__CPROVER_size_t)%s->length_ + 1)' % (s, s)]
+
+
+def callee_cmp(less):
+    sp = cmp_spec(less)
+    sp = dict(sp)
+    sp.pop('buffers'); sp.pop('loops'); sp.pop('ghost_returns')
+    sp['requires'] = ['left_length == 0 || __CPROVER_r_ok(left, left_length)', 'right_length == 0 || __CPROVER_r_ok(right, right_length)', 'orEqual == 0 || orEqual == 1']
+    return sp
+
+
+def op_jobs():
+    out = []
+    for op, nm, less, oreq in (('<', 'lt', True, 0), ('<=', 'le', True, 1), ('>', 'gt', False, 0), ('>=', 'ge', False, 1)):
+        fn = '%s_op_%s__const_%s_r_c' % (ST, nm, ST)
+        callee = 'StringUtils_%s__char' % ('IsLess' if less else 'IsGreater')
+        lt = 'self->storage_[g_k] < string->storage_[g_k]' if less else 'self->storage_[g_k] > string->storage_[g_k]'
+        ln = 'self->length_ < string->length_' if less else 'self->length_ > string->length_'
+        spec = dict(requires=st_wf('self') + st_wf('string'),
+                    ensures=['g_k <= %s' % CMP_M, 'g_j < g_k ==> self->storage_[g_j] == string->storage_[g_j]',
+                             'g_k < %s ==> self->storage_[g_k] != string->storage_[g_k]' % CMP_M,
+                             '__CPROVER_return_value == ((g_k < %s && %s) || (g_k == %s && (%s || (%d && self->length_ == string->length_))))' % (CMP_M, lt, CMP_M, ln, oreq)],
+                    assigns=['g_k'])
+        out.append(dict(name='String<char>.operator%s' % op, unit=LC.UNIT, fn=fn, roots=['%s::operator%s(const %s &)' % (QST, op, QST)],
+                        specs={fn: spec, callee: callee_cmp(less)}, replace=[callee], ghosts=GH_CMP, solver='cadical', timeout=300,
+                        must_have=['postcondition', 'precondition'],
+                        clause='String %s compares the two character sequences lexicographically (first difference decides, proper prefix first)' % op))
+    return out
+
+
+_jobs_c15 = jobs
+
+
+def jobs(tier):
+    return _jobs_c15(tier) + op_jobs()
+
+
+def lemma_jobs():
+    h = '''
+void qx_harness(void)
+{
+  /* abstract first-difference witness shared by all five comparison contracts of one pair of strings */
+  unsigned int la, lb, d; int a_d, b_d;
+  unsigned int m = la < lb ? la : lb;
+  __CPROVER_assume(d <= m);
+  __CPROVER_assume(d < m ? a_d != b_d : 1);
+  _Bool LT = (d < m && a_d < b_d) || (d == m && (la < lb));
+  _Bool LE = (d < m && a_d < b_d) || (d == m && (la < lb || la == lb));
+  _Bool GT = (d < m && a_d > b_d) || (d == m && (la > lb));
+  _Bool GE = (d < m && a_d > b_d) || (d == m && (la > lb || la == lb));
+  _Bool EQ = (d == m && la == lb);      /* IsEqual contract: every unit agrees and the lengths agree */
+  __CPROVER_assert((LT + EQ + GT) == 1, "exactly one of a<b, a==b, a>b");
+  __CPROVER_assert(LE == (LT || EQ), "<= is the union of < and ==");
+  __CPROVER_assert(GE == (GT || EQ), ">= is the union of > and ==");
+  __CPROVER_assert(LT == !GE && GT == !LE, "< is the complement of >=, > of <=");
+}
+'''
+    return [dict(name='order-lemmas.trichotomy', unit=UNIT, fn='StringUtils_IsLess__char', roots=['Qentem::StringUtils::IsLess<char>'], specs={}, mode='raw', harness=h,
+                 solver='cadical', timeout=120, canary=False, must_have=['assertion'],
+                 clause='the five comparison contracts, instantiated at the first difference of a pair of strings, form a consistent total order (loop-free lemma over the contracts)')]
+
+
+_jobs_c15b = jobs
+
+
+def jobs(tier):
+    return _jobs_c15b(tier) + lemma_jobs()
